@@ -157,17 +157,17 @@ Definition lf (n : string) (t : tref) : leaf := {| lf_name := n; lf_type := t |}
    submodule s0 { belongs-to m0 { prefix pp; } typedef sub { type pp:b; } }
    module m1 { prefix q; import m0 { prefix x; } typedef t0 { type boolean; } } *)
 Definition ex_m0 : module :=
-  {| m_name := "m0"; m_sub := false; m_prefix := "p"; m_belongs := ""; m_imports := []; m_includes := ["s0"];
+  {| m_name := "m0"; m_sub := false; m_rev := ""; m_prefix := "p"; m_belongs := ""; m_imports := []; m_includes := [("s0", None)];
      m_top := Scope [tdf "t0" (rf "int8") (Some "top") None; tdf "t1" (rf "t0") None None; tdf "string" (rf "int16") None None;
                      tdf "a" (rpat "string" ["x"; "y"]) None (Some "d"); tdf "b" (rpat "p:a" ["y"; "z"]) None None;
                      tdf "c1" (rf "c2") None None; tdf "c2" (rf "c1") None None]
                     [Scope [tdf "t0" (rf "t1") (Some "inner") None]
                            [Scope [] [] [lf "l" (rf "t0"); lf "s" (rf "sub")]] []] [] |}.
 Definition ex_s0 : module :=
-  {| m_name := "s0"; m_sub := true; m_prefix := "pp"; m_belongs := "m0"; m_imports := []; m_includes := [];
+  {| m_name := "s0"; m_sub := true; m_rev := ""; m_prefix := "pp"; m_belongs := "m0"; m_imports := []; m_includes := [];
      m_top := Scope [tdf "sub" (rf "pp:b") None None] [] [] |}.
 Definition ex_m1 : module :=
-  {| m_name := "m1"; m_sub := false; m_prefix := "q"; m_belongs := ""; m_imports := [("x", "m0")]; m_includes := [];
+  {| m_name := "m1"; m_sub := false; m_rev := ""; m_prefix := "q"; m_belongs := ""; m_imports := [("x", ("m0", None))]; m_includes := [];
      m_top := Scope [tdf "t0" (rf "boolean") None None] [] [] |}.
 Definition ex_S : schema := [ex_m0; ex_s0; ex_m1].
 
@@ -246,3 +246,26 @@ Proof.
     + repeat constructor.
     + cbn. unfold link_ok. cbn. repeat split; try reflexivity; intros; discriminate.
 Qed.
+
+(* two revisions of one module loaded together: an import that pins a revision-date denotes exactly that revision,
+   an import without one the latest, whatever the load order *)
+Definition ex_lib (rev : string) (base : string) : module :=
+  {| m_name := "lib"; m_sub := false; m_rev := rev; m_prefix := "lib"; m_belongs := ""; m_imports := [];
+     m_includes := []; m_top := Scope [tdf "id" (rf base) (Some rev) None] [] [] |}.
+Definition ex_user (name : string) (pin : option string) : module :=
+  {| m_name := name; m_sub := false; m_rev := ""; m_prefix := "u"; m_belongs := "";
+     m_imports := [("l", ("lib", pin))]; m_includes := []; m_top := Scope [] [] [lf "x" (rf "l:id")] |}.
+Definition ex_R : schema :=
+  [ex_lib "2021-01-01" "uint32"; ex_user "pinned" (Some "2020-01-01"); ex_lib "2020-01-01" "string";
+   ex_user "floating" None].
+
+Example C09_ex_pinned_revision :
+  resolve_type ex_R (resolve_fuel ex_R) (1, []) (rf "l:id")
+  = Ok (YT "id" Ystring "2020-01-01" "" false 0 None None [] None None "" None []) /\
+  resolve_type ex_R (resolve_fuel ex_R) (3, []) (rf "l:id")
+  = Ok (YT "id" Yuint32 "2021-01-01" "" false 0 None None [] None None "" None []) /\
+  resolve_type (rev ex_R) (resolve_fuel ex_R) (2, []) (rf "l:id")
+  = Ok (YT "id" Ystring "2020-01-01" "" false 0 None None [] None None "" None []) /\
+  resolve_type (rev ex_R) (resolve_fuel ex_R) (0, []) (rf "l:id")
+  = Ok (YT "id" Yuint32 "2021-01-01" "" false 0 None None [] None None "" None []).
+Proof. vm_compute. auto. Qed.
